@@ -24,7 +24,7 @@ pub fn run_mode<K: SimKey>(case: &Case, mode: &Mode) -> Outcome {
         Mode::Crash { cuts, depth, suffix_every, verify } => run_crash::<K>(case, cuts, *depth, *suffix_every, *verify, false),
         Mode::Power { cuts } => run_crash::<K>(case, cuts, 1, 0, true, true),
         Mode::LogDamage { budget, dseed } => crate::damage::run_log_damage::<K>(case, *budget, *dseed),
-        Mode::Err { site, errno, suffix_seed } => crate::errmode::run_err::<K>(case, site, *errno, *suffix_seed),
+        Mode::Err { site, errno, suffix_seed, second_gap } => crate::errmode::run_err::<K>(case, site, *errno, *suffix_seed, *second_gap),
         Mode::Forge { fseed, budget } => crate::forge::run_forge::<K>(case, *fseed, *budget),
         Mode::Orphans { pseed } => crate::orphans::run_orphans::<K>(case, *pseed),
         Mode::Procs { pseed } => crate::procs::run_procs(case, *pseed),
